@@ -132,9 +132,9 @@ Section NumRun.
   Lemma num_core :
     exists X,
       disc [] X /\
-      ((run_rejected c w = false /\ exists P, raw_out c X res P /\
+      ((run_rejected c w = false /\ exists P, raw_out c (seen c X) res P /\
           (P -> exists J, sfold [] X = Some J /\ from_num start (rev J) = from_num start canon)) \/
-       (run_rejected c w = false /\ X = map fev D /\ files_out c X fend res) \/
+       (run_rejected c w = false /\ X = map fev D /\ files_out c (seen c X) fend res) \/
        (X = [] /\ (res = ([], JInvalidArg) \/ res = ([], JFuel)))).
   Proof.
     pose proof HcU as HcU. pose proof (lnk_of_chain_ok canon Hchain) as Hcl. pose proof Hstartle as Hsl.
@@ -193,7 +193,7 @@ Section NumRun.
 
   Lemma num_raw :
     exists X,
-      chain_over c X res /\
+      chain_over c (seen c X) res /\
       (forall X1 X2, X = X1 ++ X2 -> exists c', raw_fold [] X1 = Some c') /\
       (snd res = JNil ->
          exists c', raw_fold [] X = Some c' /\
@@ -212,7 +212,8 @@ Section NumRun.
       cbn [cs_stack]. rewrite rev_involutive. apply D_all.
       destruct Hfo as [[_ Hr]|[_ Hr]]; rewrite Hr in Hn; cbn [snd] in Hn; [exact Hn | discriminate].
     - split.
-      { right. exists (snd res). left. rewrite EX. split; [reflexivity|]. destruct Hr as [Hr|Hr]; rewrite Hr; reflexivity. }
+      { right. exists (snd res). left. rewrite EX. assert (Es : seen c [] = []) by (unfold seen; destruct (j_filter c =? 1); reflexivity).
+        rewrite Es. split; [reflexivity|]. destruct Hr as [Hr|Hr]; rewrite Hr; reflexivity. }
       split; [exact Hpre|]. intros Hn. destruct Hr as [Hr|Hr]; rewrite Hr in Hn; discriminate.
   Qed.
 
@@ -330,6 +331,9 @@ Section NumRun.
       (snd res = JStop -> stop_reached c canon merged start (fst res) (cs_stack c')).
   Proof.
     destruct num_core as (X & Hd & Hcase).
+    assert (Hne : j_filter c <> 1).
+    { intros E. unfold has_nu in Hnu. rewrite E in Hnu. cbn in Hnu. discriminate. }
+    rewrite (seen_stateless c X Hne) in Hcase.
     (* the run stopped by the chain on an event of X *)
     assert (Hstopped : run_rejected c w = false -> snd (upto_stop c X) = true -> fst res = fst (upto_stop c X) -> snd res = JStop ->
               exists c', cons_fold_aside cons0 (map as_new (filter is_nu (fst res))) = Some c' /\
